@@ -1,13 +1,13 @@
 //! C11 — an interpreter stays usable and clean after failed or abandoned runs.
 
 use crate::core::{guarded, Ctx, Exec, Plan, Property, Tier};
-use crate::engine::{describe_step, error_class, new_interp, reset_hooks};
+use crate::engine::{describe_step, drive, error_class, new_interp, render_value, reset_hooks, HostAction, RunOpts};
 use crate::progen::{gen_script, Config};
 use crate::tape::Tape;
 use serde_json::{json, Value};
 use std::cell::RefCell;
 use std::rc::Rc;
-use tsrun::{Interpreter, ModulePath, StepResult};
+use tsrun::{Interpreter, JsValue, ModulePath, OrderResponse, RuntimeValue, StepResult};
 
 pub struct C11Prop;
 pub static C11: C11Prop = C11Prop;
@@ -68,6 +68,138 @@ fn gen_dead_run(tape: &mut Tape, idx: usize, gates: &crate::findings::Gates, exc
     (src, all_names, tags, format!("depth{}", depth))
 }
 
+
+/// A module run that suspends on host orders inside nested scopes; the host answers `answers` of them and
+/// then abandons the run while it is parked in `Suspended` (or lets it complete when it asks for no more).
+fn gen_suspend_run(tape: &mut Tape, idx: usize) -> (Value, Vec<String>, Vec<String>) {
+    let orders = 1 + tape.below(3);
+    let answers = tape.below(orders + 1) as u64;
+    let shape = tape.below(6);
+    let top_level_await = tape.chance(1, 3);
+    let i = idx;
+    let body = match shape {
+        0 => format!("let sb{i} = 0; for (let k = 0; k < {orders}; k++) {{ let sc{i} = k; const r = await order({{run: {i}, k}}); console.log(\"got{i}\", r, sc{i}); sb{i}++; }}"),
+        1 => format!("let sb{i} = 0; for (const k of [{}]) {{ try {{ let sc{i} = k; const r = await order({{run: {i}, k}}); console.log(\"got{i}\", r); }} finally {{ let sd{i} = 3; sb{i}++; }} }}", (0..orders).map(|k| k.to_string()).collect::<Vec<_>>().join(", ")),
+        2 => format!("let sb{i} = 0; const inner{i} = async (k) => {{ let sc{i} = k; {{ let sd{i} = k + 1; return (await order({{run: {i}, k}})) + sd{i}; }} }}; for (let k = 0; k < {orders}; k++) {{ sb{i} += String(await inner{i}(k)).length; }}"),
+        3 => format!("let sb{i} = 0; class K{i} {{ constructor() {{ this.v = 1; }} async m(k) {{ let sc{i} = k; const r = await order({{run: {i}, k}}); return [r, this.v, sc{i}]; }} }} const o{i} = new K{i}(); for (let k = 0; k < {orders}; k++) {{ sb{i} += (await o{i}.m(k)).length; }}"),
+        4 => format!("let sb{i} = 0; try {{ let sc{i} = 1; throw new Error(\"x\"); }} catch (e{i}) {{ let sd{i} = 2; for (let k = 0; k < {orders}; k++) {{ sb{i} += String(await order({{run: {i}, k}})).length + sd{i}; }} }}"),
+        _ => format!("let sb{i} = 0; switch (1) {{ case 1: {{ let sc{i} = 7; for (let k = 0; k < {orders}; k++) {{ sb{i} += String(await Promise.all([order({{run: {i}, k}})])).length + sc{i}; }} }} }}"),
+    };
+    let src = if top_level_await {
+        format!("import {{ order }} from \"tsrun:host\";\nexport const early{i} = \"e\";\nlet mtop{i} = 1;\n{{ let sa{i} = 1; {body} globalThis.__done = (globalThis.__done || 0) + 1; }}\nexport const late{i} = 2;\n\"susp{i}\"")
+    } else {
+        format!("import {{ order }} from \"tsrun:host\";\nexport const early{i} = \"e\";\nlet mtop{i} = 1;\nasync function work{i}() {{ let sa{i} = 1; {body} globalThis.__done = (globalThis.__done || 0) + 1; return sb{i}; }}\nconst res{i} = await work{i}();\nexport const late{i} = res{i};\n\"susp{i}\"")
+    };
+    let names: Vec<String> = ["sa", "sb", "sc", "sd", "mtop", "early", "late", "res", "work", "inner", "o"].iter().map(|n| format!("{}{}", n, i)).collect();
+    let late_fulfil = tape.chance(1, 3);
+    let tags = vec![format!("susp-shape:{}", shape), format!("susp-answers:{}of{}", answers, orders), if top_level_await { "susp:top-level-await".into() } else { "susp:async-fn".into() }, "run:suspend-module".into()];
+    (json!({"kind": "suspend", "src": src, "path": format!("/susp{}/main.ts", i), "answers": answers, "orders": orders, "late_fulfil": late_fulfil}), names, tags)
+}
+
+/// A module run that needs host-provided imports and dies or is abandoned somewhere in the import flow.
+fn gen_imports_run(tape: &mut Tape, idx: usize) -> (Value, Vec<String>, Vec<String>) {
+    let i = idx;
+    let variant = tape.below(6);
+    let main_dies = variant == 4;
+    let main = if main_dies {
+        format!("import {{ a{i}, f{i} }} from \"./dep{i}.ts\";\nexport const m{i} = a{i} + 1;\nlet mt{i} = 2;\n{{ let mb{i} = 3; (null).x; }}\nexport const n{i} = 2;\n\"imp{i}\"")
+    } else {
+        format!("import {{ a{i}, f{i} }} from \"./dep{i}.ts\";\nexport const m{i} = a{i} + 1;\nlet mt{i} = 2;\nconsole.log(\"main{i}\", f{i}());\nglobalThis.__done = (globalThis.__done || 0) + 1;\n\"imp{i}\"")
+    };
+    let mut mods = serde_json::Map::new();
+    let dep = format!("/imp{}/dep{}.ts", i, i);
+    let tag = match variant {
+        0 => "imports:never-supplied",
+        1 => {
+            mods.insert(dep, json!(format!("export const a{i} = 1;\nexport function f{i}() {{ return 1; }}\nlet dl{i} = 5;\n{{ let db{i} = 1; throw new Error(\"dep dies\"); }}")));
+            "imports:dep-throws-after-exports"
+        }
+        2 => {
+            mods.insert(dep, json!(format!("import {{ z{i} }} from \"./deeper{i}.ts\";\nexport const a{i} = z{i};\nexport function f{i}() {{ return 2; }}\nlet dl{i} = 5;")));
+            "imports:deeper-never-supplied"
+        }
+        3 | 4 => {
+            mods.insert(dep, json!(format!("export const a{i} = 1;\nexport function f{i}() {{ return 3; }}\nlet dl{i} = 5;")));
+            if main_dies { "imports:main-throws-after-export" } else { "imports:complete" }
+        }
+        _ => {
+            mods.insert(dep, json!(format!("import {{ z{i} }} from \"./deeper{i}.ts\";\nexport const a{i} = z{i};\nexport function f{i}() {{ return 2; }}\nlet dl{i} = 5;")));
+            mods.insert(format!("/imp{}/deeper{}.ts", i, i), json!(format!("export const z{i} = 9;\nlet dz{i} = 1;\n[1].forEach(() => {{ let dy{i} = 2; undefinedFunction{i}(); }});")));
+            "imports:deeper-throws"
+        }
+    };
+    let names: Vec<String> = ["a", "f", "m", "mt", "mb", "n", "dl", "db", "z", "dz", "dy"].iter().map(|n| format!("{}{}", n, i)).collect();
+    (json!({"kind": "imports", "src": main, "path": format!("/imp{}/main.ts", i), "mods": Value::Object(mods)}), names, vec![tag.to_string(), "run:imports-module".into()])
+}
+
+/// Result of one host-driven run, rendered without order ids (ids legitimately differ between a used and
+/// a fresh interpreter).
+fn run_hosted(interp: &mut Interpreter, run: &Value, dead_ids: &mut Vec<tsrun::OrderId>) -> (String, bool) {
+    let src = run["src"].as_str().unwrap_or("").to_string();
+    let opts = RunOpts { module_path: run["path"].as_str().map(|s| s.to_string()), step_budget: BUDGET, vm_limit_per_step: 20_000_000, ..Default::default() };
+    let answers = run["answers"].as_u64().unwrap_or(u64::MAX);
+    let mods = run["mods"].as_object().cloned().unwrap_or_default();
+    let mut answered = 0u64;
+    let mut kinds: Vec<String> = vec![];
+    let mut abandoned_parked = false;
+    let mut outstanding: Vec<tsrun::OrderId> = vec![];
+    let (end, _err, _steps, _trace) = drive(interp, &src, &opts, &mut |it, r| match r {
+        StepResult::Suspended { pending, cancelled } => {
+            kinds.push(format!("suspended:{}+{}c:{}", pending.len(), cancelled.len(), pending.iter().map(|o| render_value(&o.payload)).collect::<Vec<_>>().join(";")));
+            for o in pending {
+                outstanding.push(o.id);
+            }
+            if answered >= answers || outstanding.is_empty() {
+                abandoned_parked = true;
+                return HostAction::Stop;
+            }
+            let rs: Vec<OrderResponse> = outstanding.drain(..).map(|id| OrderResponse { id, result: Ok(RuntimeValue::unguarded(JsValue::Number(7.0))) }).collect();
+            answered += rs.len() as u64;
+            it.fulfill_orders(rs);
+            HostAction::Resume
+        }
+        StepResult::NeedImports(reqs) => {
+            kinds.push(format!("needimports:{}", reqs.iter().map(|q| q.resolved_path.as_str().to_string()).collect::<Vec<_>>().join(",")));
+            for q in reqs {
+                match mods.get(q.resolved_path.as_str()).and_then(|v| v.as_str()) {
+                    Some(text) => {
+                        if let Err(e) = it.provide_module(q.resolved_path.clone(), text) {
+                            kinds.push(format!("provide-error:{}", error_class(&e)));
+                            return HostAction::Stop;
+                        }
+                    }
+                    None => {
+                        abandoned_parked = true;
+                        return HostAction::Stop;
+                    }
+                }
+            }
+            HostAction::Resume
+        }
+        _ => HostAction::Stop,
+    });
+    tsrun::verif_hooks::vm_instr_set_limit(0);
+    dead_ids.extend(outstanding);
+    let end = if abandoned_parked { format!("abandoned-parked[{}]", kinds.join("|")) } else { format!("{}[{}]", end.split(":pending").next().unwrap_or(""), kinds.join("|")) };
+    (end, abandoned_parked)
+}
+
+fn exports_of(interp: &Interpreter) -> String {
+    let mut names = interp.get_export_names();
+    names.sort();
+    names.iter().map(|n| format!("{}={}", n, interp.get_export(n).map(|v| crate::engine::render_js(&v)).unwrap_or("<none>".into()))).collect::<Vec<_>>().join(",")
+}
+
+/// The three structured observers: a module with exports, a module with an import + export *, a module awaiting an order.
+fn structured_observers(names: &[String]) -> Vec<Value> {
+    let typeofs: Vec<String> = names.iter().take(24).map(|n| format!("typeof {}", n)).collect();
+    vec![
+        json!({"kind": "observer", "src": format!("export const oa = 1;\nexport function ofn() {{ return 2; }}\nexport default \"d\";\n[{}].join(\",\")", typeofs.join(", ")), "path": "/obs/o1.ts"}),
+        json!({"kind": "observer", "src": "import * as ns from \"./o2dep.ts\";\nexport * from \"./o2dep.ts\";\nexport const ob = Object.keys(ns).sort().join(\",\");\nob", "path": "/obs/o2.ts", "mods": {"/obs/o2dep.ts": "export const da = 1;\nexport let db = 2;\nlet hidden = 3;"}}),
+        json!({"kind": "observer", "src": "import { order } from \"tsrun:host\";\nlet seen = [];\nfor (let k = 0; k < 2; k++) { seen.push(await order({q: k})); }\nexport const oc = seen.join(\"-\");\n\"o3:\" + oc", "path": "/obs/o3.ts"}),
+    ]
+}
+
 struct Session {
     interp: Interpreter,
     log: Rc<RefCell<Vec<String>>>,
@@ -105,13 +237,13 @@ impl Property for C11Prop {
         "C11"
     }
     fn rule(&self) -> String {
-        "A history on ONE interpreter: 1-4 earlier runs, each a program whose state lives in nested scopes (wrappers drawn from: block, function call, arrow call, method call, constructor, try/finally, try/catch-rethrow, generator body, for / for-of body, switch case, native callback; nesting depth 1-8) run as script or as module, ended by completion, by an uncaught error thrown at the innermost level, or by abandonment after a tape-chosen number of steps (then replaced by the next prepare); followed by observer programs: typeof of every name the dead runs declared inside their nesting (and, for module runs, at module top level), fresh let-declarations reusing those names, and a random progen program. Oracle: every observer outcome equals the outcome on a FRESH interpreter that only executed the deliberate global writes; call_depth()==0 and the H4 quiescence snapshot is clean (global environment, no env guards, empty call stack, no active VM, empty order/wait bookkeeping) after every ended or replaced run. Non-trivial: a run died at nesting depth >= 2 or was abandoned inside a call. Distinct = distinct history.".into()
+        "A history on ONE interpreter: 1-4 earlier runs, each a program whose state lives in nested scopes (wrappers drawn from: block, function call, arrow call, method call, constructor, try/finally, try/catch-rethrow, generator body, for / for-of body, switch case, native callback; nesting depth 1-8) run as script or as module, ended by completion, by an uncaught error thrown at the innermost level, or by abandonment after a tape-chosen number of steps (then replaced by the next prepare); followed by observer programs: typeof of every name the dead runs declared inside their nesting (and, for module runs, at module top level), fresh let-declarations reusing those names, and a random progen program. Oracle: every observer outcome equals the outcome on a FRESH interpreter that only executed the deliberate global writes; call_depth()==0 and the H4 quiescence snapshot is clean (global environment, no env guards, empty call stack, no active VM, empty order/wait bookkeeping) after every ended or replaced run. One run in three interacts with the host: a module awaiting 1-3 host orders inside nested scopes (6 shapes: loops, try/finally, nested async arrow, method using this, catch block, switch+Promise.all; top-level await or async function) that the host abandons while it is parked in Suspended after answering 0..n orders, or a module whose imports the host never supplies / supplies with a dependency that throws after its first exports / whose deeper dependency is missing or throws / whose own body throws after an export (abandoned in NeedImports or ended by the error). Three structured module observers then run on the used and on a fresh interpreter: a module with exports (typeof of every name of the dead runs), a module with a namespace import and export *, and a module awaiting two orders while a late answer for an order of an abandoned run arrives; their result kinds, output, export tables (get_export_names/get_export) and bookkeeping must be equal. Non-trivial: a run died at nesting depth >= 2, was abandoned inside a call or was abandoned while parked in Suspended/NeedImports. Distinct = distinct history.".into()
     }
     fn assumptions(&self) -> Vec<String> {
         vec!["top-level declarations of earlier SCRIPT runs are deliberate effects on global state (observers avoid those names); module-level declarations are not".into()]
     }
     fn plan(&self, tier: Tier) -> Plan {
-        Plan { shards: 16, cases_per_shard: tier.pick(700, 30000), tape_len: tier.pick(600, 1200), watchdog_s: tier.pick(900, 7200) }
+        Plan { shards: 16, cases_per_shard: tier.pick(2500, 40000), tape_len: tier.pick(600, 1200), watchdog_s: tier.pick(900, 7200) }
     }
     fn generate(&self, tape: &mut Tape, ctx: &Ctx) -> Value {
         let gates = ctx.gates.only_prefixed("C11:");
@@ -122,6 +254,15 @@ impl Property for C11Prop {
         let mut tags: Vec<String> = vec![];
         let mut excluded = 0u64;
         for idx in 0..k {
+            // one run in three interacts with the host (orders / imports) and can be abandoned while parked
+            let hosted = tape.below(6);
+            if hosted == 4 || hosted == 5 {
+                let (run, names, t) = if hosted == 4 { gen_suspend_run(tape, idx) } else { gen_imports_run(tape, idx) };
+                module_top_names.extend(names);
+                tags.extend(t);
+                runs.push(run);
+                continue;
+            }
             let (src, names, t, d) = gen_dead_run(tape, idx, &gates, &mut excluded);
             let as_module = tape.chance(1, 3);
             if as_module && gates.excluded("C11:module-run") {
@@ -156,7 +297,8 @@ impl Property for C11Prop {
         obs.push(format!("{} [{}].join(\",\")", decls.join(" "), all.iter().filter(|n| *n != "spin").take(6).cloned().collect::<Vec<_>>().join(", ")));
         let p = gen_script(tape, &crate::findings::Gates::none(), Config::full(8));
         obs.push(p.js());
-        json!({"runs": runs, "observers": obs, "tags": tags, "excluded": excluded})
+        let obs2 = structured_observers(&all);
+        json!({"runs": runs, "observers": obs, "observers2": obs2, "tags": tags, "excluded": excluded})
     }
     fn execute(&self, case: &Value, _ctx: &mut Ctx) -> Exec {
         let runs = case["runs"].as_array().cloned().unwrap_or_default();
@@ -169,14 +311,30 @@ impl Property for C11Prop {
             let mut problems: Vec<String> = vec![];
             let mut ends: Vec<String> = vec![];
             let mut deep = false;
+            let mut dead_ids: Vec<tsrun::OrderId> = vec![];
+            let mut late_ids: Vec<tsrun::OrderId> = vec![];
             for (i, run) in runs.iter().enumerate() {
                 let src = run["src"].as_str().unwrap_or("");
-                let path = if run["module"].as_bool() == Some(true) { Some(format!("/m{}.ts", i)) } else { None };
-                let abandon = run["abandon_after"].as_u64();
-                tsrun::verif_hooks::vm_instr_set_limit(20_000_000);
-                tsrun::verif_hooks::vm_instr_reset();
-                let (end, steps) = run_to_end(&mut s.interp, src, path.as_deref(), abandon);
-                tsrun::verif_hooks::vm_instr_set_limit(0);
+                let hosted = run["kind"].as_str().is_some();
+                let (end, steps) = if hosted {
+                    let before = dead_ids.len();
+                    let (end, parked) = run_hosted(&mut s.interp, run, &mut dead_ids);
+                    if parked {
+                        deep = true;
+                        if run["late_fulfil"].as_bool() == Some(true) {
+                            late_ids.extend(dead_ids[before..].iter().cloned());
+                        }
+                    }
+                    (if parked { format!("abandoned:{}", end) } else { end }, 1)
+                } else {
+                    let path = if run["module"].as_bool() == Some(true) { Some(format!("/m{}.ts", i)) } else { None };
+                    let abandon = run["abandon_after"].as_u64();
+                    tsrun::verif_hooks::vm_instr_set_limit(20_000_000);
+                    tsrun::verif_hooks::vm_instr_reset();
+                    let r = run_to_end(&mut s.interp, src, path.as_deref(), abandon);
+                    tsrun::verif_hooks::vm_instr_set_limit(0);
+                    r
+                };
                 s.log.borrow_mut().clear();
                 if end == "abandoned" && s.interp.call_depth() >= 1 {
                     deep = true;
@@ -184,7 +342,7 @@ impl Property for C11Prop {
                 if end.starts_with("error:") && src.matches("let n").count() >= 2 {
                     deep = true;
                 }
-                let abandoned = end == "abandoned";
+                let abandoned = end.starts_with("abandoned");
                 ends.push(format!("{}@{}", end.chars().take(40).collect::<String>(), steps));
                 if !abandoned {
                     // an ENDED run must leave the interpreter quiescent
@@ -229,6 +387,26 @@ impl Property for C11Prop {
                 let q = s.interp.verif_quiescence();
                 used_q.push(format!("observer {}: call_depth={} env_is_global={} env_guards={} call_stack={} active_vm={}", k, s.interp.call_depth(), q.env_is_global, q.env_guards, q.call_stack, q.active_vm));
             }
+            // structured observers (modules with exports / imports / orders); a late answer to an order of
+            // an abandoned run arrives while the order observer is suspended: it must not resurrect anything
+            let obs2: Vec<Value> = case["observers2"].as_array().cloned().unwrap_or_default();
+            let run_obs2 = |sess: &mut Session, late: &[tsrun::OrderId]| -> Vec<String> {
+                let mut out = vec![];
+                for (k, o) in obs2.iter().enumerate() {
+                    sess.log.borrow_mut().clear();
+                    if k == 2 && !late.is_empty() {
+                        // delivered before the observer starts AND (again, harmlessly) nothing else: the dead run is gone
+                        let rs: Vec<OrderResponse> = late.iter().map(|id| OrderResponse { id: *id, result: Ok(RuntimeValue::unguarded(JsValue::Number(99.0))) }).collect();
+                        sess.interp.fulfill_orders(rs);
+                    }
+                    let mut sink = vec![];
+                    let (end, _) = run_hosted(&mut sess.interp, o, &mut sink);
+                    let q = sess.interp.verif_quiescence();
+                    out.push(format!("{}|{}|exports:{}|call_depth={} env_is_global={} env_guards={} call_stack={} active_vm={} suspended={} waiters={}", end, sess.log.borrow().join("\u{1}"), exports_of(&sess.interp), sess.interp.call_depth(), q.env_is_global, q.env_guards, q.call_stack, q.active_vm, q.suspended_for_order, q.wait_contexts));
+                }
+                out
+            };
+            let used2 = run_obs2(&mut s, &late_ids);
             // the same observers on a fresh interpreter that only saw the deliberate global writes
             let log2 = Rc::new(RefCell::new(Vec::new()));
             let mut f = Session { interp: new_interp(&log2), log: log2 };
@@ -237,7 +415,7 @@ impl Property for C11Prop {
             }
             // script-level declarations of earlier script runs are deliberate global effects: replay them
             for (i, run) in runs.iter().enumerate() {
-                if run["module"].as_bool() != Some(true) {
+                if run["module"].as_bool() != Some(true) && run["kind"].as_str().is_none() {
                     // only if the run got past its first statement (declarations execute first)
                     let started = ends.get(i).map(|e| !e.ends_with("@0") || !e.starts_with("abandoned")).unwrap_or(true);
                     if started {
@@ -253,6 +431,12 @@ impl Property for C11Prop {
                 fresh.push(format!("{}|{}", end, f.log.borrow().join("\u{1}")));
                 let q = f.interp.verif_quiescence();
                 fresh_q.push(format!("observer {}: call_depth={} env_is_global={} env_guards={} call_stack={} active_vm={}", k, f.interp.call_depth(), q.env_is_global, q.env_guards, q.call_stack, q.active_vm));
+            }
+            let fresh2 = run_obs2(&mut f, &[]);
+            for (k, (u, fr)) in used2.iter().zip(fresh2.iter()).enumerate() {
+                if u != fr {
+                    problems.push(format!("module observer {} differs: used={:?} fresh={:?}", k, u.chars().take(260).collect::<String>(), fr.chars().take(260).collect::<String>()));
+                }
             }
             for (u, fr) in used_q.iter().zip(fresh_q.iter()) {
                 if u != fr {
